@@ -594,8 +594,9 @@ run_cmd do
             "wall_s": round(time.time() - self.t0, 2),
             "violations": len(self.violations),
         }
-        os.makedirs(os.path.join(VERIF, "evidence"), exist_ok=True)
-        p = os.path.join(VERIF, "evidence", self.id + ".json")
+        evdir = os.environ.get("VERIF_EVIDENCE_DIR") or os.path.join(VERIF, "evidence")
+        os.makedirs(evdir, exist_ok=True)
+        p = os.path.join(evdir, self.id + ".json")
         json.dump(ev, open(p + ".tmp", "w"), indent=1)
         os.replace(p + ".tmp", p)
 
